@@ -43,6 +43,9 @@ def run(tier, seed):
     chk = Check(PID, tier, seed)
     recs = GC.tlc_cases(chk, "conn", tier)
     z3jobs, emitjobs = plan(recs, tier, seed)
+    import random
+    from harness import scaleup
+    z3jobs += scaleup.conn_jobs(chk, tier, seed, random.Random(seed + 4))
     results = GC.pmap(GR.run_conn, z3jobs)
     for job, mism in zip(z3jobs, results):
         n = job["obj"]["graph"]["n"]
